@@ -4,6 +4,7 @@ statement, one JSON object per line on stdout (lines start with `AUDIT `).
 Run: `lake env lean Audit.lean`
 -/
 import PybtexModel
+import Lean
 open Lean Elab Command Meta
 
 run_cmd do
